@@ -19,7 +19,7 @@ RULE = ("exhaustive: every strobe/data word (w_en, r_en, w_data; w_data fixed to
         "{0,1,2,3,4,5,7,8,9,16,17} x width in {0,1,2,8} x both FIFOs with phases fill/drain/mixed/stream/idle whose "
         "lengths scale with the depth, data random, counting, or wider than the port; constructor arguments (negative "
         "width/depth) compared on acceptance. Per cycle compared: w_rdy, r_rdy, r_data (masked while r_rdy=0), level, "
-        "w_level, r_level, plus the deque monitor verdict. non-trivial = some entry became readable (r_rdy seen); "
+        "w_level, r_level (packed in one integer), plus the deque monitor verdict. non-trivial = some entry became readable (r_rdy seen); "
         "distinct by case hash; full/empty/wrap-around visit counts are in the evidence (walk_visits)")
 MODELLED = ("SyncFIFO.elaborate, SyncFIFOBuffered.elaborate and _incr (amaranth/lib/fifo.py) are modelled by hand in "
             "coq/Model/Fifo.v as one-cycle step functions with explicit register widths; lib.memory.Memory with one write "
@@ -28,7 +28,7 @@ MODELLED = ("SyncFIFO.elaborate, SyncFIFOBuffered.elaborate and _incr (amaranth/
             "and FIFOInterface signal plumbing are validated only, by the per-cycle differential run")
 ASSUMPTIONS = ["single clock domain, reset never asserted after time 0, inputs change only between active edges "
                "(the testbench sets strobes, samples outputs, then pulses the clock)"]
-SHARD = 300
+SHARD = 500
 
 DEPTHS = [0, 1, 2, 3, 4, 5, 7, 8, 9, 16, 17]
 WIDTHS = [0, 1, 2, 8]
@@ -192,7 +192,8 @@ def _monitor(kind, w, d, xs, trace):
             q.append(wd & msk)
             st["writes"] += 1
         if re and r_rdy:
-            q.popleft()
+            if q:                       # (an empty monitor queue here was already reported as clause 2)
+                q.popleft()
             st["reads"] += 1
         st["max_level"] = max(st["max_level"], n)
     st["wraps"] = st["reads"] // ring if ring > 0 else 0
@@ -216,10 +217,19 @@ def run_impl(c):
     verdict, st = _monitor(c["k"], c["w"], c["d"], c["xs"], trace)
     if c.get("stats"):
         return [st[k] for k in STAT_KEYS]
-    out = []
-    for (w_rdy, r_rdy, r_data, level, w_level, r_level) in trace:
-        out += [w_rdy, r_rdy, r_data if r_rdy else 0, level, w_level, r_level]
-    return out + [verdict]
+    return [_pack_out(o) for o in trace] + [verdict]
+
+
+def _pack_out(o):
+    w_rdy, r_rdy, r_data, level, w_level, r_level = o
+    assert max(level, w_level, r_level) < 256
+    return w_rdy + 2 * r_rdy + 4 * (level + 256 * (w_level + 256 * (r_level + 256 * (r_data if r_rdy else 0))))
+
+
+def _unpack_out(v):
+    w_rdy, r_rdy, v = v & 1, (v >> 1) & 1, v >> 2
+    return {"w_rdy": w_rdy, "r_rdy": r_rdy, "level": v & 255, "w_level": (v >> 8) & 255,
+            "r_level": (v >> 16) & 255, "r_data": v >> 24}
 
 
 STAT_KEYS = ["cycles", "full", "empty", "wraps", "writes", "reads", "simultaneous", "w_refused", "r_refused",
@@ -243,12 +253,13 @@ def classify(c):
 def nontrivial(c, obs):
     if c["k"] == "ctor":
         return c["w"] < 0 or c["d"] < 0
-    return any(obs[i] == 1 for i in range(1, len(obs) - 1, 6))
+    return any((v >> 1) & 1 for v in obs[:-1])
 
 
 def explain(c):
-    return ("stimulus xs: one integer per cycle = w_en + 2*r_en + 4*w_data; answer: per cycle w_rdy, r_rdy, r_data "
-            "(0 while r_rdy=0), level, w_level, r_level, then the deque-monitor verdict (0 = ok, else 1+16*cycle+clause)")
+    return ("stimulus xs: one integer per cycle = w_en + 2*r_en + 4*w_data; answer: one integer per cycle = "
+            "w_rdy + 2*r_rdy + 4*(level + 256*(w_level + 256*(r_level + 256*r_data))) with r_data taken as 0 while "
+            "r_rdy=0, then the deque-monitor verdict (0 = ok, else 1+16*cycle+clause)")
 
 
 def shrink(c, obs, model):
@@ -257,10 +268,10 @@ def shrink(c, obs, model):
     k = next((i for i, (a, b) in enumerate(zip(obs, model)) if a != b), None)
     if k is None or k >= len(obs) - 1:
         return c, obs, model                      # only the monitor verdict differs: keep the whole run
-    cycles = k // 6 + 1
+    cycles = k + 1
     c2 = dict(c, xs=c["xs"][:cycles])
     obs2 = run_impl(c2)
-    model2 = model[:6 * cycles] + [0]
+    model2 = model[:cycles] + [0]
     if obs2 == model2:
         return c, obs, model
     return c2, obs2, model2
@@ -288,7 +299,9 @@ def extra(tier, seed, findings):
             else:
                 pd[k] += s[k]
                 tot[c["k"]][k] += s[k]
-        if c["d"] > 0 and (s["full"] == 0 or s["empty"] == 0 or s["wraps"] == 0 or s["max_level"] != c["d"]):
+        ring = c["d"] if c["k"] == "sync" else c["d"] - 1      # rows of the storage memory
+        if c["d"] > 0 and (s["full"] == 0 or s["empty"] == 0 or (ring > 0 and s["wraps"] == 0)
+                           or s["max_level"] != c["d"]):
             gaps.append(f"{c['k']} w={c['w']} d={c['d']}: full={s['full']} empty={s['empty']} wraps={s['wraps']}")
     cov = {
         "walk_visits": {k: dict(v) for k, v in tot.items()},
